@@ -55,7 +55,7 @@ def run(ctx):
         # (a) random tables
         types = [t for t in kc.all_types(ctx.gen_info, be, with_amount=False)
                  if t.name in ("cat_Temperature", "syn_NoRef", "syn_Foo", "syn_Single", "cat_Duration", "syn_Ties")]
-        amts = kc.structured_pool(be)[:14]
+        amts = kc.structured_pool(be)[:14] + [kc.random_amount(be, rng) for _ in range(10)]
         for t in ([] if ctx.replay else types):
             for _ in range(25 if quick else 400):
                 nrows = rng.randint(0, 12)
